@@ -940,3 +940,29 @@ theorem rowsMatch_of_skippedUnchanged (F : BodyFn) (P : Project) (g : G) (cfg : 
 
 end Engine
 end Pytask
+
+namespace Pytask
+namespace Engine
+
+theorem fresh_of_fs_eq {F : BodyFn} {w w' : World} {t : TaskSpec} (h : w'.fs = w.fs) (hf : Fresh F w t) : Fresh F w' t := by
+  intro pi hpi; rw [h]; exact hf pi hpi
+
+/-! ## Data for the non-vacuity examples of `Properties/C05.lean` -/
+def c05F : BodyFn := fun t i src ds => t * 100 + i * 10 + src.getD 0 + (ds.map (·.getD 0)).sum
+def c05P : Project := ⟨[{ id := 0, src := 90, deps := [10], prods := [20, 21], after := [] },
+                        { id := 1, src := 90, deps := [20], prods := [22], after := [] }]⟩
+def c05G : G := modifyDag c05P (baseGraph c05P)
+def c05W : World := ⟨[(10, 5), (90, 7)], []⟩
+
+theorem c05_wf : WF c05P c05G where
+  find := by intro t ht; simp [c05P] at ht; rcases ht with rfl | rfl <;> rfl
+  deps := by intro t ht; simp [c05P] at ht; rcases ht with rfl | rfl <;> decide
+  prods := by intro t ht; simp [c05P] at ht; rcases ht with rfl | rfl <;> decide
+  nodup := by intro t ht; simp [c05P] at ht; rcases ht with rfl | rfl <;> decide
+  disj := by intro t ht; simp [c05P] at ht; rcases ht with rfl | rfl <;> decide
+  honest := by intro t ht; simp [c05P] at ht; rcases ht with rfl | rfl <;> (intro k h; cases h)
+  noPersist := by intro t ht; simp [c05P] at ht; rcases ht with rfl | rfl <;> rfl
+
+
+end Engine
+end Pytask
